@@ -115,7 +115,7 @@ def parseAnswersAuxC (limit : Nat) (n : Nat) : Nat → Bytes → Nat → List (U
         else some none
 
 def parseProposalAnswerC (limit : Nat) (reply : Bytes) (n : Nat) : Option (Option (List (UInt8 × Int))) :=
-  let str := if (sb "FS ").isPrefixOf reply then reply.drop 3 else reply
+  let str := if fsPrefix.isPrefixOf reply then reply.drop 3 else reply
   parseAnswersAuxC limit n (str.length + 1) str 0 (List.replicate n (0, 0))
 
 /-- `parseProposal` with the slicing checked -/
